@@ -16,7 +16,9 @@ SPEC = dict(
          "space after the closing tag (7 trailers x 3 streams; also bytewise and random k-way; the one-read run must itself deliver every item; PrefixOracle measured on them too); "
          "20 correspondence-only sequences with garbage / further stanzas / a second close after the closing tag; multi-connection histories on ONE "
          "XmppSocket (connection 1 = prefix of a stream cut at every byte position of 3 (thorough 6) streams, ended by the peer or by "
-         "disconnectFromHost(), real reconnect through connectToHost() over loopback, then a second/third stream: S reconnect_histories). Each chunk travels "
+         "disconnectFromHost(), real reconnect through connectToHost() over loopback, then a second/third stream: S reconnect_histories); 4 multi-header streams (stream restart on one connection: headers differing in "
+         "default namespace and prefix bindings, stanzas using the prefixes; every cut inside the sessions, bytewise, random: S runs_restart). "
+         "Canonical elements carry the namespace URI of every element and attribute. Each chunk travels "
          "through a real loopback TCP connection into XmppSocket (one read per chunk, verified), and the events of that read "
          "(signal + canonical element + buffered/cached lengths) are compared line by line with the Lean model fed the same bytes; "
          "text-level splits incl. empty reads go through processData directly; 16 probe sequences exercise the two regular "
@@ -54,7 +56,8 @@ SPEC = dict(
                "white space after the closing tag) are fixed in the repo (49994ec, 381fe43, 109544b); their witnesses stay first in the corpus. Header matcher: stable under "
                "appended data, matches exactly one quote-aware open tag (theorems). Lean parser: completeness at item boundaries "
                "proved for a sub-language (leanParser_complete_at_boundary_partial). Reconnects: the events of a connection depend only on "
-               "its own bytes (connection_events_depend_only_on_own_bytes), tied by real reconnect histories.",
+               "its own bytes (connection_events_depend_only_on_own_bytes), tied by real reconnect histories. Stream restarts: every header "
+               "replaces the cached one; split independence for multi-header connections (framing_restart_split_independent_partial).",
     level_note="White space after </stream:stream> was a defect (C03:bytes-after-stream-close: one read delivered nothing), fixed in repo "
                "commit 109544b; the model uses the tolerant close detection, such streams now satisfy PrefixOracle (measured on Qt and on the "
                "Lean parser for 21 trailer streams) and are covered by the _partial theorems. "
